@@ -242,6 +242,18 @@ func (e *contractEnv) lengthOf(fn *ssa.Function, v ssa.Value, recvConst map[stri
 // field -> constant.
 func (e *contractEnv) literalRecvConsts(recv ssa.Value) map[string]int64 {
 	out := map[string]int64{}
+	// a receiver produced by a parameterless module helper (a generic
+	// instantiation, say) that returns a literal: the literal's constants
+	if call, ok := recv.(*ssa.Call); ok {
+		callee := call.Call.StaticCallee()
+		if callee != nil && e.P.isModuleFunc(callee) && callee.Blocks != nil && len(callee.Params) == 0 {
+			rets, _ := liveReturns(e.P, callee)
+			if len(rets) == 1 {
+				return e.literalRecvConsts(resolvedResults(rets[0])[0])
+			}
+		}
+		return out
+	}
 	ld, ok := recv.(*ssa.UnOp)
 	if !ok || ld.Op != token.MUL {
 		return out
@@ -886,6 +898,26 @@ func (e *contractEnv) allocArg(fn *ssa.Function, t ssa.Value) Contract {
 	}
 	if T := staticTypeOfReflectType(t); T != nil {
 		return Contract{Kind: CPtr, T: T}
+	}
+	// a parameterless module helper (generic instantiation) whose live returns all denote one type
+	if call, ok := stripChange(t).(*ssa.Call); ok {
+		callee := call.Call.StaticCallee()
+		if callee != nil && e.P.isModuleFunc(callee) && callee.Blocks != nil && len(callee.Params) == 0 {
+			rets, _ := liveReturns(e.P, callee)
+			var T types.Type
+			same := len(rets) > 0
+			for _, r := range rets {
+				rt := e.reflectTypeStatic(resolvedResults(r)[0])
+				if rt == nil || T != nil && !types.Identical(T, rt) {
+					same = false
+					break
+				}
+				T = rt
+			}
+			if same && T != nil {
+				return Contract{Kind: CPtr, T: T}
+			}
+		}
 	}
 	return Contract{Kind: CUnknown, Why: "Alloc with a type that is neither a package variable nor a receiver field"}
 }
